@@ -277,27 +277,37 @@ inductive Ret where
   | fail (c : Nat)
   deriving DecidableEq, Repr, Inhabited
 
+/-- the pool handles `EstablishedConnectionEvent::Closed` of connection `c` -/
+def reportClosed (s : State) (c : Nat) (bad : Bool) : State × Option Ret :=
+  ({ s with conns := eraseConn s.conns c, gone := s.gone ++ (findConn s.conns c).toList, bad := bad },
+    some (.closed c))
+
+/-- the pool handles a `PendingConnectionEvent` -/
+def reportPending (s : State) (m : PendMsg) (bad : Bool) : State × Option Ret :=
+  if m.ok then
+    ({ s with pendQ := s.pendQ.filter (fun x : PendMsg => x.id != m.id), bad := bad,
+              conns := s.conns ++ [({ id := m.id, peer := m.peer } : Conn)] }, some (.est m.id m.peer))
+  else
+    ({ s with pendQ := s.pendQ.filter (fun x : PendMsg => x.id != m.id), bad := bad }, some (.fail m.id))
+
+def pickClosed (doneIds : List Nat) (d0 : Nat) : Option Nat → Nat
+  | some c => if doneIds.contains c then c else d0
+  | none => d0
+
+def pickMsg (q : List PendMsg) (m0 : PendMsg) : Option Nat → PendMsg
+  | some c => (q.find? (fun x : PendMsg => x.id == c)).getD m0
+  | none => m0
+
 /-- `Pool::poll`: `some ret` = `Poll::Ready(event)` (turned into a `SwarmEvent` by
 `handle_pool_event`), `none` = `Poll::Pending` after `advance_local`.  Which of several waiting
 reports comes first is the oracle `pick`. -/
 def poolPoll (s : State) (pick : Option Nat) : State × Option Ret :=
-  let doneIds := (s.conns.filter (·.done)).map (·.id)
-  match doneIds with
-  | d0 :: _ =>
-    let c := match pick with
-      | some c => if doneIds.contains c then c else d0
-      | none => d0
-    ({ s with conns := eraseConn s.conns c, gone := s.gone ++ (findConn s.conns c).toList,
-              bad := s.bad || (pick != some c) }, some (.closed c))
+  match (s.conns.filter (·.done)).map (·.id) with
+  | d0 :: ds =>
+    reportClosed s (pickClosed (d0 :: ds) d0 pick) (s.bad || (pick != some (pickClosed (d0 :: ds) d0 pick)))
   | [] =>
     match s.pendQ with
-    | m0 :: _ =>
-      let m : PendMsg := match pick with
-        | some c => (s.pendQ.find? (fun x : PendMsg => x.id == c)).getD m0
-        | none => m0
-      let s1 := { s with pendQ := s.pendQ.filter (fun x : PendMsg => x.id != m.id), bad := s.bad || (pick != some m.id) }
-      if m.ok then ({ s1 with conns := s1.conns ++ [({ id := m.id, peer := m.peer } : Conn)] }, some (.est m.id m.peer))
-      else (s1, some (.fail m.id))
+    | m0 :: _ => reportPending s (pickMsg s.pendQ m0 pick) (s.bad || (pick != some (pickMsg s.pendQ m0 pick).id))
     | [] => (advanceLocal s, none)
 
 def poolPart (s : State) (pick : Option Nat) : State × Ret :=
